@@ -80,6 +80,8 @@ def enc_recipe(r):
         if "metadata" in r:
             out["metadata"] = enc(r["metadata"])
         return out
+    if r["k"] == "__alias__":
+        return {"k": "__alias__", "of": r["of"]}
     out = {"k": r["k"], "args": [[n, enc(v)] for n, v in r["args"].items()]}
     if "set_types" in r:
         out["set_types"] = r["set_types"]
@@ -93,6 +95,8 @@ def dec_recipe(j):
         if "metadata" in j:
             out["metadata"] = dec(j["metadata"])
         return out
+    if j["k"] == "__alias__":
+        return {"k": "__alias__", "of": j["of"]}
     out = {"k": j["k"], "args": {n: dec(v) for n, v in j["args"]}}
     if "set_types" in j:
         out["set_types"] = j["set_types"]
@@ -106,8 +110,9 @@ def build(r):
         kw = {}
         if "metadata" in r:
             kw["metadata"] = r["metadata"]
-        return nir.NIRGraph(nodes={n: build(x) for n, x in r["nodes"].items()},
-                            edges=[tuple(e) for e in r["edges"]], **kw)
+        built = {n: build(x) for n, x in r["nodes"].items() if x["k"] != "__alias__"}
+        nodes = {n: (built[x["of"]] if x["k"] == "__alias__" else built[n]) for n, x in r["nodes"].items()}
+        return nir.NIRGraph(nodes=nodes, edges=[tuple(e) for e in r["edges"]], **kw)
     cls = getattr(nir, r["k"])
     node = cls(**r["args"])
     if "set_types" in r:
